@@ -170,16 +170,24 @@ def inmem(ctx: Ctx, rule="R-C15-INMEM") -> None:
     g = ctx.cfg(rj)
     adds = [nn for nn in g.calls() if inmem_event(nn) and inmem_event(nn)[0] == "+"]
     helper = [c for c in ast.walk(rj.node) if isinstance(c, ast.Call) and (dotted(c.func) or "") in ("self._put_in_queue", "self.enqueue")]
-    ok = not helper and len(adds) >= 1 and all(unparse(a.ast.args[-1]) == "msg" for a in adds)
+    def same_object(a):
+        v = a.ast.args[-1] if a.ast.args else None
+        if not isinstance(v, ast.Name):
+            return False
+        # the held message itself (a loop variable over the held set or what a take-helper handed back), never a rebuilt Message
+        return not any(isinstance(c, ast.Call) and (dotted(c.func) or "").split(".")[-1] == "Message" for d_ in C.local_defs(rj, v.id) for c in ast.walk(d_))
+
+    ok = not helper and len(adds) >= 1 and all(same_object(a) for a in adds)
     ctx.check(ok, rule, rj, "in-memory reject re-appends the held message itself", "no re-routing, no recomputed schedule",
               f"in-memory reject re-inserts through {[unparse(h.func) for h in helper] or [unparse(a.ast)[:50] for a in adds]}: a new message object is routed by a recomputed due time, so a "
               "returned (e.g. recurring) message goes back into the delayed store and later arrivals overtake it", instance="in-memory reject: same object")
     fin = ctx.func(f"{C.INMEM_CONS}.finish")
-    puts = [c for c in ast.walk(fin.node) if isinstance(c, ast.Call) and unparse(c.func) == "self._queue.simple.put_nowait"]
+    puts = [c for c in ast.walk(fin.node) if isinstance(c, ast.Call) and C.utext(fin, c.func) == "self._queue.simple.put_nowait"]
     ctx.check(len(puts) == 1, rule, fin, "in-memory finish re-appends held messages to the waiting queue", "put_nowait", "in-memory finish does not return held messages to the waiting queue", instance="in-memory finish: append")
     d = ctx.func(f"{C.INMEM_CONS}.__consume_dead")
-    pops = [c for c in ast.walk(d.node) if isinstance(c, ast.Call) and unparse(c.func) == "self._queue.dead.pop"]
+    pops = [c for c in ast.walk(d.node) if isinstance(c, ast.Call) and C.utext(d, c.func) == "self._queue.dead.pop"]
     ctx.check(len(pops) == 1 and pops[0].args and C.is_const(pops[0].args[0], 0), rule, d, "dead letters read oldest first", "dead.pop(0)", "in-memory dead reader does not take the oldest dead letter first", instance="in-memory dead: FIFO")
     dl = ctx.func(f"{C.INMEM_CONS}.__consume_delayed")
-    pops = [c for c in ast.walk(dl.node) if isinstance(c, ast.Call) and isinstance(c.func, ast.Attribute) and c.func.attr == "pop" and isinstance(c.func.value, ast.Subscript)]
+    pops = [c for c in ast.walk(dl.node) if isinstance(c, ast.Call) and isinstance(c.func, ast.Attribute) and c.func.attr == "pop"
+            and isinstance(C.inline_locals(dl, c.func.value, calls="all") or c.func.value, ast.Subscript)]
     ctx.check(all(c.args and C.is_const(c.args[0], 0) for c in pops), rule, dl, "same-instant delayed messages read in insertion order", "bucket.pop(0)", "in-memory delayed reader does not take the first message of a bucket", instance="in-memory delayed: FIFO")
